@@ -171,11 +171,83 @@ theorem prep_total {s s1 : St} (prev : Option Nat) (o : PickOutcome) (saved : Na
 
 /-! ### a free cell exists -/
 
-theorem free_exists (jobs : List Job) (occ : List (List Int)) (W pin k : Nat) (l : List Int)
+theorem held_slot_unique : ∀ (jobs : List Job), ((held jobs).map Prod.fst).Nodup →
+    ∀ j ∈ jobs, ∀ j' ∈ jobs, ∀ p ∈ j.picked, ∀ p' ∈ j'.picked, slotOf p = slotOf p' → j = j' := by
+  intro jobs
+  induction jobs with
+  | nil => intro _ j hj; simp at hj
+  | cons j0 js ih =>
+    intro hnd j hj j' hj' p hp p' hp' hs
+    have hheld : held (j0 :: js) = heldJob j0 ++ held js := by simp [held]
+    rw [hheld, List.map_append, List.nodup_append] at hnd
+    obtain ⟨_, hnd2, hdis⟩ := hnd
+    have hmem0 : ∀ q ∈ j0.picked, slotOf q ∈ (heldJob j0).map Prod.fst := by
+      intro q hq
+      exact List.mem_map.mpr ⟨(slotOf q, q.pn), List.mem_map.mpr ⟨q, hq, rfl⟩, rfl⟩
+    have hmems : ∀ j1 ∈ js, ∀ q ∈ j1.picked, slotOf q ∈ (held js).map Prod.fst := by
+      intro j1 hj1 q hq
+      refine List.mem_map.mpr ⟨(slotOf q, q.pn), ?_, rfl⟩
+      simp only [held, List.mem_flatMap]
+      exact ⟨j1, hj1, List.mem_map.mpr ⟨q, hq, rfl⟩⟩
+    rcases List.mem_cons.mp hj with h1 | h1
+    · rcases List.mem_cons.mp hj' with h2 | h2
+      · rw [h1, h2]
+      · exfalso
+        subst h1
+        exact hdis _ (hmem0 p hp) _ (hmems j' h2 p' hp') hs
+    · rcases List.mem_cons.mp hj' with h2 | h2
+      · exfalso
+        subst h2
+        exact hdis _ (hmem0 p' hp') _ (hmems j h1 p hp) hs.symm
+      · exact ih hnd2 j h1 j' h2 p hp p' hp' hs
+
+/-- the slot through which job `j` uses engine type `k` (the first of its ensembles listing `k`) -/
+def jobSlotK (ensEng : List (List Nat)) (k : Nat) (j : Job) : Option Nat :=
+  (j.picked.find? (fun p => (ensEng.getD (slotOf p) []).contains k)).map slotOf
+
+/-- … of the job in flight with pin `x` -/
+def pinSlotK (jobs : List Job) (ensEng : List (List Nat)) (k : Nat) (x : Int) : Option Nat :=
+  (jobs.find? (fun j => (j.pin : Int) == x)).bind (jobSlotK ensEng k)
+
+theorem find_job_pin (jobs : List Job) (hnd : (jobs.map (·.pin)).Nodup) (j : Job) (hj : j ∈ jobs) :
+    jobs.find? (fun j' => (j'.pin : Int) == (j.pin : Int)) = some j := by
+  cases h : jobs.find? (fun j' => (j'.pin : Int) == (j.pin : Int)) with
+  | none =>
+    rw [List.find?_eq_none] at h
+    exact absurd (by simp) (h j hj)
+  | some j1 =>
+    have hm := List.mem_of_find?_eq_some h
+    have hp := List.find?_some h
+    have : j1.pin = j.pin := by
+      have : (j1.pin : Int) = (j.pin : Int) := by simpa using hp
+      exact_mod_cast this
+    rw [List.inj_on_of_nodup_map hnd hm hj this]
+
+theorem jobSlotK_spec (ensEng : List (List Nat)) (k : Nat) (j : Job)
+    (h : ∃ p ∈ j.picked, k ∈ ensEng.getD (slotOf p) []) :
+    ∃ p0 ∈ j.picked, jobSlotK ensEng k j = some (slotOf p0) ∧ k ∈ ensEng.getD (slotOf p0) [] := by
+  unfold jobSlotK
+  cases hf : j.picked.find? (fun p => (ensEng.getD (slotOf p) []).contains k) with
+  | none =>
+    rw [List.find?_eq_none] at hf
+    obtain ⟨p, hp, hk⟩ := h
+    exact absurd (by simpa using hk) (hf p hp)
+  | some p0 =>
+    refine ⟨p0, List.mem_of_find?_eq_some hf, rfl, ?_⟩
+    simpa using List.find?_some hf
+
+/-- **a free cell exists** for an engine type `k` needed by the job being prepared (which holds
+    slot `e0` listing `k`), when the row has `min(count_k, workers)` cells -/
+theorem free_exists (jobs : List Job) (occ : List (List Int)) (ensEng : List (List Nat))
+    (n W pin k e0 : Nat) (l : List Int)
     (hown : ∀ i x, cell occ k i = some x → x ≠ -1 → x ≠ (pin : Int) →
       ∃ j ∈ jobs, (j.pin : Int) = x ∧ ∃ p ∈ j.picked, (k, i) ∈ p.engIdx)
     (hpins : (jobs.map (·.pin)).Nodup) (hlt : ∀ j ∈ jobs, j.pin < W) (huniq : ∀ j ∈ jobs, JobUniq j)
-    (hpin : pin < W) (hl : occ[k]? = some l) (hlen : W ≤ l.length) :
+    (hkeys : ∀ j ∈ jobs, JobKeys ensEng j)
+    (hslot : ∀ j ∈ jobs, (j.pin : Int) ≠ (pin : Int) → ∀ p ∈ j.picked, slotOf p < n - 1 ∧ slotOf p ≠ e0)
+    (hsu : ∀ j ∈ jobs, ∀ j' ∈ jobs, ∀ p ∈ j.picked, ∀ p' ∈ j'.picked, slotOf p = slotOf p' → j = j')
+    (he0 : e0 < n - 1) (hk0 : k ∈ ensEng.getD e0 [])
+    (hpin : pin < W) (hl : occ[k]? = some l) (hlen : min (countK ensEng n k) W ≤ l.length) :
     ∃ l', (freeEngines occ pin)[k]? = some l' ∧ ∃ x ∈ l', (x == -1) = true := by
   rw [freeEngines_row, hl]
   refine ⟨_, rfl, ?_⟩
@@ -196,7 +268,25 @@ theorem free_exists (jobs : List Job) (occ : List (List Int)) (W pin k : Nat) (l
         unfold cell
         rw [hl]
         exact hli
-  apply row_has_free _ W pin hpin (by simpa using hlen)
+  have hgspec : ∀ x ∈ l.map (fun x => if x = (pin : Int) then -1 else x), x ≠ -1 →
+      ∃ j ∈ jobs, (j.pin : Int) = x ∧ x ≠ (pin : Int) ∧ ∃ p0 ∈ j.picked,
+        pinSlotK jobs ensEng k x = some (slotOf p0) ∧ k ∈ ensEng.getD (slotOf p0) [] := by
+    intro x hx hne
+    obtain ⟨i, hi, hxi⟩ := List.getElem_of_mem hx
+    obtain ⟨h1, h2⟩ := hcell i x (by rw [List.getElem?_eq_getElem hi, hxi]) hne
+    obtain ⟨j, hj, hjx, p, hp, hki⟩ := hown i x h2 hne h1
+    obtain ⟨p0, hp0, hs0, hk0'⟩ := jobSlotK_spec ensEng k j ⟨p, hp, hkeys j hj p hp (k, i) hki⟩
+    refine ⟨j, hj, hjx, h1, p0, hp0, ?_, hk0'⟩
+    unfold pinSlotK
+    rw [← hjx, find_job_pin jobs hpins j hj]
+    exact hs0
+  apply row_has_free2 _ W pin (slotsUsing ensEng n k) e0 (pinSlotK jobs ensEng k) hpin
+    (List.nodup_range.filter _)
+    (by
+      unfold slotsUsing
+      rw [List.mem_filter]
+      exact ⟨List.mem_range.mpr he0, by simpa using hk0⟩)
+    (by simpa [countK] using hlen)
   · intro i x hx hne
     obtain ⟨h1, h2⟩ := hcell i x hx hne
     obtain ⟨j, hj, hjx, _⟩ := hown i x h2 hne h1
@@ -214,6 +304,19 @@ theorem free_exists (jobs : List Job) (occ : List (List Int)) (W pin k : Nat) (l
       exact_mod_cast this)
     subst this
     exact huniq j hj p hp p' hp' k i i' hki hki'
+  · intro x hx hne
+    obtain ⟨j, hj, hjx, hxp, p0, hp0, hs0, hk0'⟩ := hgspec x hx hne
+    obtain ⟨hlt0, hne0⟩ := hslot j hj (by rw [hjx]; exact hxp) p0 hp0
+    refine ⟨slotOf p0, hs0, ?_, hne0⟩
+    unfold slotsUsing
+    rw [List.mem_filter]
+    exact ⟨List.mem_range.mpr hlt0, by simpa using hk0'⟩
+  · intro x hx x' hx' hne hne' hgg
+    obtain ⟨j, hj, hjx, _, p0, hp0, hs0, _⟩ := hgspec x hx hne
+    obtain ⟨j', hj', hjx', _, p0', hp0', hs0', _⟩ := hgspec x' hx' hne'
+    rw [hs0, hs0'] at hgg
+    have hjj := hsu j hj j' hj' p0 hp0 p0' hp0' (by simpa using hgg)
+    rw [← hjx, ← hjx', hjj]
 
 /-! ### preservation of the engine accounting -/
 
@@ -252,7 +355,7 @@ theorem start_preserves_E {y y' : Sys} (o : PickOutcome) (saved : Nat) (he : EIn
     (s' := { y.s with cworker := (y.s.workers - y.s.toinitiate).toNat, toinitiate := y.s.toinitiate - 1 })
     ⟨rfl, rfl, rfl, rfl, rfl⟩
   obtain ⟨_, _, _, hpin, hto, hwo, _, _⟩ := prep_spec none o saved job ds hc1 hprep
-  obtain ⟨hconv, huq, hrow, hens, hn, _, _⟩ := prep_spec_eng none o saved job ds hc1 hprep
+  obtain ⟨hconv, huq, hkeys, hrow, hens, hn, _, _⟩ := prep_spec_eng none o saved job ds hc1 hprep
   simp only [ge_iff_le, hgo, ↓reduceIte, Option.some.injEq] at hpin
   have htole := hi.tole
   have hrow' : ∀ k : Nat, (s2.occ[k]?).map List.length = (y.s.occ[k]?).map List.length := hrow
@@ -278,6 +381,13 @@ theorem start_preserves_E {y y' : Sys} (o : PickOutcome) (saved : Nat) (he : EIn
     · exact he.uniq j hj
     · simp only [List.mem_singleton] at hj
       subst hj; exact huq
+  · intro j hj
+    show JobKeys s2.ensEng j
+    rw [hens]
+    rcases List.mem_append.mp hj with hj | hj
+    · exact he.keys j hj
+    · simp only [List.mem_singleton] at hj
+      subst hj; exact hkeys
   · right
     intro k i x hx hne
     rcases hconv k i x hx hne with ⟨_, h2⟩ | ⟨h1, h2⟩
@@ -285,8 +395,8 @@ theorem start_preserves_E {y y' : Sys} (o : PickOutcome) (saved : Nat) (he : EIn
       exact ⟨j, List.mem_append_left _ hj, hjx, hp⟩
     · exact ⟨job, List.mem_append_right _ (List.mem_singleton.mpr rfl), h1.symm, h2⟩
   · intro k l hl
-    show s2.workers ≤ l.length
-    rw [hwo]
+    show min (countK s2.ensEng s2.n k) s2.workers ≤ l.length
+    rw [hwo, hens, hn]
     have := hrow' k
     rw [hl] at this
     cases hk : y.s.occ[k]? with
@@ -329,7 +439,7 @@ theorem initDone_preserves_E {y y' : Sys} (he : EInv y) (h : sysStep y .initDone
     have hgo : ¬ (ti - 1 ≥ 0) := by simpa using hgo
     simp only [Except.ok.injEq] at h
     subst h
-    refine ⟨⟨hinv', he.pinsLt, he.uniq, ?_, he.sized, he.engOk⟩, Or.inl (by show ti - 1 < 0; omega)⟩
+    refine ⟨⟨hinv', he.pinsLt, he.uniq, he.keys, ?_, he.sized, he.engOk⟩, Or.inl (by show ti - 1 < 0; omega)⟩
     rcases he.owned with ⟨h1, h2⟩ | h2
     · exact Or.inl ⟨by show ti - 1 < 0; omega, h2⟩
     · exact Or.inr h2
@@ -384,7 +494,7 @@ theorem step_preserves_E {y y' : Sys} (k : Nat) (status : Status) (newW : List (
     simp only [Except.ok.injEq] at h
     subst h
     obtain ⟨_, _, _, hpin, hto3, hwo3, _, _⟩ := prep_spec (some job.pin) o 0 job' ds hc2 hprep
-    obtain ⟨hconv, huq, hrow, hens3, hn3, hcs3, hts3⟩ := prep_spec_eng (some job.pin) o 0 job' ds hc2 hprep
+    obtain ⟨hconv, huq, hkeys, hrow, hens3, hn3, hcs3, hts3⟩ := prep_spec_eng (some job.pin) o 0 job' ds hc2 hprep
     have hpin' : job'.pin = job.pin := by
       rw [hcw] at hpin
       split at hpin <;> simpa using hpin
@@ -395,7 +505,7 @@ theorem step_preserves_E {y y' : Sys} (k : Nat) (status : Status) (newW : List (
         rw [hcs2, hwo, hts2, hcs1, hlwo, hts1] at hre
         omega
       · exact h2
-    refine ⟨⟨hinv', ?_, ?_, Or.inr ?_, ?_, ?_⟩, Or.inl ?_⟩
+    refine ⟨⟨hinv', ?_, ?_, ?_, Or.inr ?_, ?_, ?_⟩, Or.inl ?_⟩
     · intro j hj
       show j.pin < s3.workers
       rw [hwo3, hwo, hlwo]
@@ -410,6 +520,13 @@ theorem step_preserves_E {y y' : Sys} (k : Nat) (status : Status) (newW : List (
       · exact he.uniq j (hrest j hj)
       · simp only [List.mem_singleton] at hj
         subst hj; exact huq
+    · intro j hj
+      show JobKeys s3.ensEng j
+      rw [hens3]
+      rcases List.mem_append.mp hj with hj | hj
+      · rw [hens2, hens1]; exact he.keys j (hrest j hj)
+      · simp only [List.mem_singleton] at hj
+        subst hj; exact hkeys
     · intro k0 i x hx hne
       rcases hconv k0 i x hx hne with ⟨h1, h2⟩ | ⟨h1, h2⟩
       · rw [hocc, hlocc] at h2
@@ -422,8 +539,8 @@ theorem step_preserves_E {y y' : Sys} (k : Nat) (status : Status) (newW : List (
         exact ⟨j, List.mem_append_left _ (mem_of_perm_cons hjperm hj hjne), hjx, hp⟩
       · exact ⟨job', List.mem_append_right _ (List.mem_singleton.mpr rfl), h1.symm, h2⟩
     · intro k0 l hl
-      show s3.workers ≤ l.length
-      rw [hwo3, hwo, hlwo]
+      show min (countK s3.ensEng s3.n k0) s3.workers ≤ l.length
+      rw [hwo3, hwo, hlwo, hens3, hens2, hens1, hn3, hn2, hle.n]
       have := hrow k0
       rw [hl, hocc, hlocc] at this
       cases hk : y.s.occ[k0]? with
@@ -453,19 +570,23 @@ theorem step_preserves_E {y y' : Sys} (k : Nat) (status : Status) (newW : List (
   · rename_i hre
     simp only [Except.ok.injEq] at h
     subst h
-    refine ⟨⟨hinv', ?_, ?_, Or.inl ⟨?_, ?_⟩, ?_, ?_⟩, Or.inl ?_⟩
+    refine ⟨⟨hinv', ?_, ?_, ?_, Or.inl ⟨?_, ?_⟩, ?_, ?_⟩, Or.inl ?_⟩
     · intro j hj
       show j.pin < s2.workers
       rw [hwo, hlwo]
       exact he.pinsLt j (hrest j hj)
     · exact fun j hj => he.uniq j (hrest j hj)
+    · intro j hj
+      show JobKeys s2.ensEng j
+      rw [hens2, hens1]
+      exact he.keys j (hrest j hj)
     · show s2.toinitiate < 0
       rw [hto, hlto]; exact hphase
     · show s2.tsteps < s2.cstep + s2.workers
       omega
     · intro k0 l hl
-      show s2.workers ≤ l.length
-      rw [hwo, hlwo]
+      show min (countK s2.ensEng s2.n k0) s2.workers ≤ l.length
+      rw [hwo, hlwo, hens2, hens1, hn2, hle.n]
       have hl' : s2.occ[k0]? = some l := hl
       rw [hocc, hlocc] at hl'
       exact he.sized k0 l hl'
@@ -498,10 +619,14 @@ theorem pick_engine_ready {s s' : St} {H : List (Nat × Nat)} (hc : Core s H s.t
     (hpick : pickPart s o saved = .ok (s', ps, ds)) (jobs : List Job) (W pin : Nat)
     (hengOk : ∀ e, e < s.n - 1 → s.ensEng.getD e [] ≠ [] ∧
       ∀ k ∈ s.ensEng.getD e [], ∃ l, s.occ[k]? = some l)
-    (hsized : ∀ (k : Nat) (l : List Int), s.occ[k]? = some l → W ≤ l.length)
+    (hsized : ∀ (k : Nat) (l : List Int), s.occ[k]? = some l →
+      min (countK s.ensEng s.n k) W ≤ l.length)
     (hown : ∀ k i x, cell s.occ k i = some x → x ≠ -1 → x ≠ (pin : Int) →
       ∃ j ∈ jobs, (j.pin : Int) = x ∧ ∃ p ∈ j.picked, (k, i) ∈ p.engIdx)
     (hpins : (jobs.map (·.pin)).Nodup) (hlt : ∀ j ∈ jobs, j.pin < W) (huniq : ∀ j ∈ jobs, JobUniq j)
+    (hkeys : ∀ j ∈ jobs, JobKeys s.ensEng j)
+    (hH : ∀ j ∈ jobs, (j.pin : Int) ≠ (pin : Int) → ∀ p ∈ j.picked, (slotOf p, p.pn) ∈ H)
+    (hsu : ∀ j ∈ jobs, ∀ j' ∈ jobs, ∀ p ∈ j.picked, ∀ p' ∈ j'.picked, slotOf p = slotOf p' → j = j')
     (hpin : pin < W) :
     (∃ p ∈ ps, s'.ensEng.getD (p.ens + 1).toNat [] ≠ []) ∧
     (∀ k, (∃ p ∈ ps, k ∈ s'.ensEng.getD (p.ens + 1).toNat []) →
@@ -523,7 +648,20 @@ theorem pick_engine_ready {s s' : St} {H : List (Nat × Nat)} (hc : Core s H s.t
     exact ⟨p, hp, (hengOk _ (hslot p hp)).1⟩
   · rintro k ⟨p, hp, hk⟩
     obtain ⟨l, hl⟩ := (hengOk _ (hslot p hp)).2 k hk
-    exact free_exists jobs s.occ W pin k l (hown k) hpins hlt huniq hpin hl (hsized k l hl)
+    have hnd := hc'.nodup
+    rw [List.map_append, List.nodup_append] at hnd
+    refine free_exists jobs s.occ s.ensEng s.n W pin k (p.ens + 1).toNat l (hown k) hpins hlt huniq
+      hkeys ?_ hsu (hslot p hp) hk hpin hl (hsized k l hl)
+    intro j hj hjp q hq
+    have hm := hH j hj hjp q hq
+    refine ⟨?_, ?_⟩
+    · have := (hc'.heldOk (slotOf q) q.pn (List.mem_append_right _ hm)).1
+      rw [ha.n] at this
+      exact this
+    · intro heq
+      refine hnd.2.2 (slotOf p) ?_ (slotOf q) (List.mem_map.mpr ⟨_, hm, rfl⟩) ?_
+      · exact List.mem_map.mpr ⟨(slotOf p, p.pn), List.mem_map.mpr ⟨p, hp, rfl⟩, rfl⟩
+      · exact heq.symm
 
 /-- **a `start` event fails only if `initiate` says no or the pick fails** -/
 theorem start_available {y : Sys} (he : EInv y) (o : PickOutcome) (saved : Nat) (s1 : St)
@@ -549,9 +687,14 @@ theorem start_available {y : Sys} (he : EInv y) (o : PickOutcome) (saved : Nat) 
     rcases he.owned with ⟨h1, _⟩ | h2
     · omega
     · exact h2
+  have hmemheld : ∀ j ∈ y.jobs, ∀ p ∈ j.picked, (slotOf p, p.pn) ∈ held y.jobs := by
+    intro j hj p hp
+    simp only [held, List.mem_flatMap]
+    exact ⟨j, hj, List.mem_map.mpr ⟨p, hp, rfl⟩⟩
   obtain ⟨hne, hfree⟩ := pick_engine_ready hc1 o saved ps ds hpick y.jobs y.s.workers
     (y.s.workers - y.s.toinitiate).toNat he.engOk he.sized
-    (fun k i x hx h1 _ => hOwned k i x hx h1) hi.pins he.pinsLt he.uniq (by omega)
+    (fun k i x hx h1 _ => hOwned k i x hx h1) hi.pins he.pinsLt he.uniq he.keys
+    (fun j hj _ p hp => hmemheld j hj p hp) (held_slot_unique y.jobs hi.core.nodup) (by omega)
   obtain ⟨s', job, hprep⟩ := prep_total none o saved ps ds (y.s.workers - y.s.toinitiate).toNat hpick
     (by
       show (if y.s.toinitiate - 1 ≥ 0 then some (y.s.workers - y.s.toinitiate).toNat else none) = _
@@ -603,12 +746,23 @@ theorem step_available {y : Sys} (he : EInv y) (hph : y.s.toinitiate < 0) (k : N
     have : s2.n = y.s.n := by rw [hn2, hle.n]
     rw [this] at hlt
     exact he.engOk e hlt
+  have hjperm := perm_cons_eraseIdx y.jobs k job hj
+  have hn2' : s2.n = y.s.n := by rw [hn2, hle.n]
+  have hens2' : s2.ensEng = y.s.ensEng := by rw [hens2, hens1]
   obtain ⟨hne, hfree⟩ := pick_engine_ready hc2 o 0 ps ds hpick y.jobs y.s.workers job.pin hengOk2
-    (by rw [hocc, hlocc]; exact he.sized)
+    (by rw [hocc, hlocc, hens2', hn2']; exact he.sized)
     (by
       rw [hocc, hlocc]
       exact fun k i x hx h1 _ => hOwned k i x hx h1)
-    hi.pins he.pinsLt he.uniq (he.pinsLt job hjmem)
+    hi.pins he.pinsLt he.uniq (by rw [hens2']; exact he.keys)
+    (by
+      intro j hj hjp p hp
+      have hjne : j ≠ job := by
+        intro heq; subst heq; exact hjp rfl
+      have hjr := mem_of_perm_cons hjperm hj hjne
+      simp only [held, List.mem_flatMap]
+      exact ⟨j, hjr, List.mem_map.mpr ⟨p, hp, rfl⟩⟩)
+    (held_slot_unique y.jobs hi.core.nodup) (he.pinsLt job hjmem)
   obtain ⟨s', job', hprep⟩ := prep_total (some job.pin) o 0 ps ds job.pin hpick
     (by
       have : ¬ (s2.toinitiate ≥ 0) := by rw [hto, hlto]; omega
@@ -685,16 +839,18 @@ theorem run_steps_E : ∀ (evs : List Ev) {y y' : Sys}, (∀ ev ∈ evs, isStep 
         exact ih (fun e he' => hall e (List.mem_cons_of_mem _ he')) he1 hph1 h
       | initDone => simp [isStep] at hev
 
-/-- the engine side of a fresh start: every cell free, at least `workers` instances per engine
-    type, every ensemble has at least one engine type and all its types exist -/
+/-- the engine side of a fresh start: every cell free, at least `min(count_k, workers)`
+    instances of every engine type `k`, every ensemble has at least one engine type and all its types exist -/
 structure EngInit (y : Sys) : Prop where
   free : ∀ k i x, cell y.s.occ k i = some x → x = -1
-  sized : ∀ (k : Nat) (l : List Int), y.s.occ[k]? = some l → y.s.workers ≤ l.length
+  sized : ∀ (k : Nat) (l : List Int), y.s.occ[k]? = some l →
+    min (countK y.s.ensEng y.s.n k) y.s.workers ≤ l.length
   engOk : ∀ e, e < y.s.n - 1 → y.s.ensEng.getD e [] ≠ [] ∧
     ∀ k ∈ y.s.ensEng.getD e [], ∃ l, y.s.occ[k]? = some l
 
 theorem EInv.ofInit {y : Sys} (h : Init y) (hE : EngInit y) : EInv y := by
-  refine ⟨h.inv, ?_, ?_, Or.inr ?_, hE.sized, hE.engOk⟩
+  refine ⟨h.inv, ?_, ?_, ?_, Or.inr ?_, hE.sized, hE.engOk⟩
+  · rw [h.jobs]; simp
   · rw [h.jobs]; simp
   · rw [h.jobs]; simp
   · intro k i x hx hne
